@@ -139,7 +139,7 @@ def equality_test(actual, expected, _exact_strings, _delta):
     # String comparisons
     elif ((isinstance(expected, str) and isinstance(actual, str)) or
           (isinstance(expected, bytes) and isinstance(actual, bytes))):
-        if _exact_strings:
+        if _exact_strings or isinstance(expected, bytes):
             return expected == actual
         else:
             return _normalize_string(expected) == _normalize_string(actual)
